@@ -183,6 +183,14 @@ func (o *objectImpl) SetProperty(name value.Value, newValue value.Value) error {
 		return fmt.Errorf("invalid signature: %s", err)
 	}
 	data := buf.Bytes()
+	// the value must have the type declared for the property.
+	for _, property := range o.meta.Properties {
+		if property.Name == nameStr && property.Signature != sig &&
+			property.Signature != "("+sig+")" {
+			return fmt.Errorf("invalid type %s for property %s (%s)",
+				sig, nameStr, property.Signature)
+		}
+	}
 	err = o.onPropertyChange(nameStr, data)
 	if err != nil {
 		return err
